@@ -1,28 +1,41 @@
 #!/bin/sh
-# Applies every stored seeded change to /repo in turn, runs the quick check of the property it breaks (and of the
-# extra properties given in seeded/<id>/also, if any), records the violations reported, and undoes the change.
-# Output: out/seed_matrix.txt (one line per seed and property). Never commits anything to /repo.
+# Applies every stored seeded change to a scratch worktree of /repo in turn (never to /repo itself), runs the quick
+# check of the property it breaks (and of the extra properties given in seeded/<id>/also, if any) against that
+# worktree, and records the violations reported.
+# usage: tools_seed_matrix.sh [seed-id-prefix ...]      Output: out/seed_matrix.txt (one line per seed and property).
 cd /verif
+WT=/tmp/verif_seedwt
+OUT=/tmp/verif_seedout
 out=out/seed_matrix.txt
-: > $out
+mkdir -p out
+git -C /repo worktree remove --force $WT 2>/dev/null
+rm -rf $WT $OUT
+git -C /repo worktree add -q --detach $WT HEAD || exit 9
+sync_mirror() { (cd /verif/contracts && find . -name zz_verif_contracts.go | while read f; do mkdir -p "$WT/$(dirname "$f")"; cp "$f" "$WT/$f"; done); }
+sel="$*"
+[ -z "$sel" ] && : > $out
 for d in seeded/*/; do
   id=$(basename $d)
+  if [ -n "$sel" ]; then ok=0; for s in $sel; do case $id in $s*) ok=1;; esac; done; [ $ok = 1 ] || continue; fi
   prop=${id%%-*}
   props="$prop"
   [ -f $d/also ] && props="$props $(cat $d/also)"
-  if ! git -C /repo apply --check /verif/$d/patch.diff 2>/dev/null; then
+  git -C $WT checkout -q -- . ; git -C $WT clean -fdq; sync_mirror
+  if ! git -C $WT apply --check /verif/$d/patch.diff 2>/dev/null; then
     echo "$id $prop PATCH-DOES-NOT-APPLY" >> $out
     continue
   fi
-  git -C /repo apply /verif/$d/patch.diff
+  git -C $WT apply /verif/$d/patch.diff
   for p in $props; do
-    res=$(./bin/govc check $p -no-evidence 2>&1)
+    res=$(GOVC_OUT=$OUT GOVC_REPO=$WT ./bin/govc check $p -repo $WT -no-evidence 2>&1)
     n=$(echo "$res" | grep -c '^VIOLATION')
     first=$(echo "$res" | grep '^VIOLATION' | grep -v 'obligation-cannot-be-generated' | head -2 | sed 's/.*obligation=\([^ ]*\).*/\1/' | tr '\n' ' ')
     anchors=$(echo "$res" | grep -c 'obligation-cannot-be-generated')
     repl=$(echo "$res" | grep '^VIOLATION' | grep -vc 'no-failing-input-found')
-    echo "$id $p violations=$n replayed=$repl anchors=$anchors first=$first" >> $out
+    und=$(echo "$res" | grep -c '^UNDECIDED')
+    echo "$id $p violations=$n replayed=$repl anchors=$anchors undecided=$und first=$first" >> $out
   done
-  git -C /repo checkout -- .
 done
-git -C /repo status --short >> $out
+git -C /repo worktree remove --force $WT
+rm -rf $WT $OUT
+git -C /repo worktree prune
